@@ -890,15 +890,27 @@ func c11r10(c *Ctx) {
 		return
 	}
 	hdr, body := false, false
+	nh := 0
 	for _, call := range f.CallsIn(rng.Body, "fmt.Fprintf") {
-		if v, ok := prog.ConstString(info, call.Expr.Args[1]); ok && strings.HasPrefix(v, "VALUE %s %d %d") && strings.HasSuffix(v, "\r\n") {
-			// length argument is len(item.Body)
-			for _, a := range call.Expr.Args[2:] {
-				if cl, isCL := prog.Unparen(a).(*ast.CallExpr); isCL && prog.CalleeKey(info, cl) == "builtin.len" && prog.MentionsField(info, cl.Args[0], "cmem.CArray.Body") {
-					hdr = true
-				}
+		if v, ok := prog.ConstString(info, call.Expr.Args[1]); ok && strings.HasPrefix(v, "VALUE ") {
+			nh++
+			good := strings.HasPrefix(v, "VALUE %s %d %d") && strings.HasSuffix(v, "\r\n") && len(call.Expr.Args) >= 5
+			// the third value (after key and flag) is len(item.Body)
+			if good {
+				a := call.Expr.Args[4]
+				cl, isCL := prog.Unparen(a).(*ast.CallExpr)
+				good = isCL && prog.CalleeKey(info, cl) == "builtin.len" && prog.MentionsField(info, cl.Args[0], "cmem.CArray.Body")
+			}
+			if good {
+				hdr = true
+			} else {
+				hdr = false
+				break
 			}
 		}
+	}
+	if nh == 0 {
+		hdr = false
 	}
 	for _, call := range f.CallsIn(rng.Body, "memcache.WriteFull") {
 		if prog.MentionsField(info, call.Expr.Args[1], "cmem.CArray.Body") {
@@ -906,16 +918,22 @@ func c11r10(c *Ctx) {
 		}
 	}
 	c.check(hdr && body, R, f.Key+": VALUE <key> <flags> <len(body)> CRLF body CRLF per item", c.pos(rng), "header carries len(item.Body); body written in full", "the per-item VALUE block does not announce exactly len(body) bytes and then write the body: values are not transferred byte-exactly")
-	end := false
+	tail := ""
 	for _, st := range vc.Body {
 		if st.Pos() > rng.End() {
-			for _, call := range f.CallsIn(st, "io.WriteString") {
-				if v, ok := prog.ConstString(info, call.Expr.Args[1]); ok && v == "END\r\n" {
-					end = true
+			for _, call := range f.CallsIn(st, "io.WriteString", "memcache.writeLine", "fmt.Fprintf") {
+				for _, a := range call.Expr.Args[1:] {
+					if v, ok := prog.ConstString(info, a); ok {
+						tail += v
+						if call.Key == "memcache.writeLine" {
+							tail += "\r\n"
+						}
+					}
 				}
 			}
 		}
 	}
+	end := tail == "END\r\n"
 	c.check(end, R, f.Key+": END after the items", c.pos(vc), "END\\r\\n after the loop", "a get reply is not closed by END: the client waits for more values")
 	// noreply writes nothing
 	nr := false
